@@ -17,7 +17,10 @@ EXPLANATION = (
     "properties get no serde default and `deny_unknown_fields` is emitted from the IR flag; (W3) where the closedness of an "
     "enum is accumulated over its variants the accumulation can only close (`|=` / `= true`): a plain reassignment forgets a "
     "closed variant converted earlier; (W4) a string schema is given the unconstrained `String` only when its validation is "
-    "absent or has no `maxLength`, no `pattern` and no `minLength` other than 0; anything else goes to the constrained newtype."
+    "absent or has no `maxLength`, no `pattern` and no `minLength` other than 0; anything else goes to the constrained newtype; (W5) the generator-side string filter (which decides which enum values "
+    "become variants) consults every constraint it holds — maxLength, minLength and pattern — on every path on which it accepts a "
+    "value; (W6) a definition that is a bare `$ref` alias becomes a newtype over the *referenced type itself* (the id the "
+    "Reference carries), never over that type's inner type — which would shed the referenced type's constraints."
 )
 ASSUMPTIONS = ["serde enforces tuple arity, tags and scalar JSON types", "regress implements ECMA-262 patterns"]
 
@@ -245,3 +248,76 @@ def run(facts, rep, tier):
                 rep.ob("C05.W4", key, not bad, "StringValidation{max_length: None, min_length: None, pattern: None}" if not bad else
                        "a string schema with %s becomes the unconstrained `String`: the bound it states is not represented, so values that violate it are accepted by Deserialize, FromStr and TryFrom" % ", ".join(bad), a.get("sp"))
         rep.floor("C05.W4", "arms yielding the unconstrained String", n_plain, 1)
+
+    # W5: the string filter reads every constraint on every accepting path
+    sv = [h for h in c.user_fns() if h["fn"].endswith("StringValidator::is_valid")]
+    adt = c.adt("StringValidator")
+    if rep.floor("C05.W5", "generator-side string filter and its constraint fields", (1 if sv else 0) + (1 if adt else 0), 2):
+        fields = [f["name"] for f in adt["variants"][0]["fields"]]
+
+        def freads(e):
+            return {x["name"] for x, _ in walk(e) if x.get("k") == "field" and x["name"] in fields and src(strip_refs(x["e"])) == "self"} if isinstance(e, dict) else set()
+
+        def accept(e):
+            """fields certainly read on every path on which `e` is evaluated to an accepting (true) result"""
+            if not isinstance(e, dict):
+                return set()
+            k = e.get("k")
+            if k == "bin" and e.get("op") == "And":
+                return accept(e["l"]) | accept(e["r"])
+            if k == "bin" and e.get("op") == "Or":
+                return accept(e["l"]) & (freads(e["l"]) | accept(e["r"]))
+            if k == "block":
+                got = set()
+                stmts = list(e.get("stmts", [])) + ([e["tail"]] if e.get("tail") is not None else [])
+                alts = []
+                for st in stmts:
+                    if st.get("k") == "if" and any(x.get("k") == "ret" for x, _ in walk(st["then"])):
+                        # an early answer: what was read so far, the condition, and the returned expression
+                        rets = [x for x, _ in walk(st["then"]) if x.get("k") == "ret"]
+                        for r_ in rets:
+                            alts.append(got | freads(st["cond"]) | accept(r_.get("e") or {}))
+                        got = got | freads(st["cond"])
+                    elif st.get("k") == "let":
+                        got = got | freads(st.get("init") or {})
+                    elif st is stmts[-1]:
+                        got = got | accept(st)
+                    else:
+                        got = got | freads(st)
+                out = got
+                for a_ in alts:
+                    out = out & a_
+                return out
+            if k == "if":
+                t = accept(e["then"])
+                f_ = accept(e["else"]) if e.get("else") is not None else set()
+                return freads(e["cond"]) | (t & f_)
+            return freads(e)
+        got = accept(sv[0]["body"])
+        for f in fields:
+            rep.ob("C05.W5", "filter-consults:%s" % f, f in got, "`%s` is consulted on every accepting path" % f if f in got else
+                   "the string filter can accept a value without consulting `%s`: an enum value that violates it stays a variant, so Deserialize, FromStr and TryFrom all accept a string the schema rejects" % f, sv[0].get("sp") or c.fns[sv[0]["fn"]].get("sp"))
+
+    # W6: aliases wrap the referenced type itself
+    from lib import Canon
+    n6 = 0
+    for hh in c.user_fns():
+        cn6 = None
+        for m, _ in nodes(hh["body"], "match"):
+            if m.get("src") != "normal":
+                continue
+            for a in m["arms"]:
+                if [v.split("::")[-1] for v in pat_top_variants(a["pat"])] != ["Reference"]:
+                    continue
+                calls = [x for x, _ in walk(a["body"]) if x.get("k") == "call" and (x.get("fn") or "").endswith("TypeEntryNewtype::from_metadata")]
+                if not calls:
+                    continue
+                cn6 = cn6 or Canon(c, hh, 4)
+                n6 += 1
+                ids = [cn6.r(x) for x in calls[0]["args"] if (c.ty(x.get("ty")) or "").endswith("TypeId")]
+                ok = len(ids) == 1 and re.fullmatch(r".*~Reference(\.clone\(\))?", ids[0]) is not None and "id_to_entry" not in ids[0].split("~Reference")[-1]
+                # the projected id must be the Reference's own payload, not something looked up through it
+                ok = ok and re.search(r"id_to_entry\.get\([^)]*~Reference", ids[0]) is None
+                rep.ob("C05.W6", "alias-wraps-the-referenced-type:%s" % hh["fn"], ok, "newtype over the id the Reference carries" if ok else
+                       "an alias definition is built over `%s` instead of the referenced type's own id: the alias sheds the constraints (pattern, length, allow/deny list) of the type it refers to, and offers an unchecked constructor for it" % (ids[0][:140] if ids else "?"), calls[0].get("sp"))
+    rep.floor("C05.W6", "alias arms (Reference => newtype)", n6, 1)
